@@ -40,6 +40,7 @@ DECIDING = {
     "ownership_checked": "published resources looked for in the caller's context",
     "waits_that_blocked": "waits that had to block (request before publication)",
     "trees_with_inherited_methods": "components inheriting prepare()/start() from an intermediate base class",
+    "reentrant_start_component_calls": "start_component called from inside a component's prepare()/start()",
 }
 ASSUMPTIONS = ["components do not shield themselves from cancellation; timeout=0 is not generated (DESIGN.md section 4)"]
 
@@ -79,6 +80,9 @@ def run_case(case: Any) -> dict[str, Any]:
     V, c = e2.check_success(run)
     c.update(tree_features(case["tree"]))
     c["trees"] = 1
+    n_sub = sum(1 for e in run.trace.events if e["kind"] == "substarted")
+    if n_sub:
+        c["reentrant_start_component_calls"] = n_sub
     c[f"backend_{case['backend']}"] = 1
     shape = tuple(sorted((p.count("."), len(n["children"])) for p, n in case["tree"]["nodes"].items()))
     sample = None
